@@ -1085,11 +1085,18 @@ static ares_server_t *ares_random_server(ares_channel_t *channel)
 static void server_probe_cb(void *arg, ares_status_t status, size_t timeouts,
                             const ares_dns_record_t *dnsrec)
 {
-  (void)arg;
+  ares_server_t *server = arg;
+
   (void)status;
   (void)timeouts;
   (void)dnsrec;
-  /* Nothing to do, the logic internally will handle success/fail of this */
+
+  /* The logic internally handles success/fail of the probe.  Whatever way it
+   * ended (answer, no retry left after a failure or timeout, cancellation),
+   * the server no longer has a probe outstanding and may be probed again.
+   * The server outlives its queries: it is destroyed only after its
+   * connections were closed, which ends a probe attached to one of them. */
+  server->probe_pending = ARES_FALSE;
 }
 
 /* Determine if we should probe a downed server */
@@ -1146,7 +1153,7 @@ static void ares_probe_failed_server(ares_channel_t      *channel,
   probe_server->probe_pending = ARES_TRUE;
   ares_send_nolock(channel, probe_server,
                    ARES_SEND_FLAG_NOCACHE | ARES_SEND_FLAG_NORETRY,
-                   query->query, server_probe_cb, NULL, NULL);
+                   query->query, server_probe_cb, probe_server, NULL);
 }
 
 static size_t ares_calc_query_timeout(const ares_query_t   *query,
